@@ -5,18 +5,26 @@
   tree functions node_query/node_assign/meta_set/config_global assign·query·remove on ordered trees
   (`CNode`; the pointer operations behind them are the subject of C14).  S = `Spec/PathMap.lean`.
 
-  Proved: `path_split` (mpt_path_set + mpt_path_next visit exactly the separator-delimited components,
-  for every text and separator, incl. first elements longer than the 8 bit `first` field), and
+  Proved: `path_split` / `path_split_assign` (mpt_path_set + mpt_path_next visit exactly the separator-delimited
+  components in front of the first assign character, for every text, separator and assign character, incl. first
+  elements longer than the 8 bit `first` field), `path_last` (mpt_path_last after any number of consumed
+  components reduces the path to the last component), `path_rebuild_sep`/`path_rebuild_bin`/`path_undo_sep`/
+  `path_undo_bin`/`path_last_bin` (a path built with addchar/valid/add holds exactly its elements in separator and
+  in binary length mode, del takes the last element off again and the rest can be walked and extended),
   `map_refinement` (for every history of assignments and removals with non-empty paths a query of the
   tree returns what the map holds: get-after-set, independence of different paths, remove = remove the
-  prefix and nothing else), for the node tree of the global configuration and (`map_refinement_items`) for the
-  item arrays of the private C++ configuration `mpt::config::root` (`Impl/ConfigItems.lean`).
-  Statement only (checked by the correspondence run): sub-tree views, mpt_path_last, rebuilding with
-  mpt_path_add/del, binary length mode, an assign character ≠ 0.
+  prefix and nothing else), for the node tree of the global configuration, through sub-tree views
+  (`map_refinement_view`: make_global never touches a value, a view with base `b` acts at `b ++ k`) and
+  (`map_refinement_items`) for the item arrays of the private C++ configuration `mpt::config::root`
+  (`Impl/ConfigItems.lean`).
+  Not proved (correspondence run only): remove through a view with an empty path (mpt_node_clear of the base),
+  mpt_path_set with an explicit length, paths with a non-zero offset handed to the builders.
 -/
 import MptModel.Lemmas.ConfigMap
 import MptModel.Lemmas.ConfigPath
 import MptModel.Lemmas.ConfigItemsMap
+import MptModel.Lemmas.ConfigPathBuild
+import MptModel.Lemmas.ConfigView
 namespace Mpt.C10
 open Mpt Mpt.Config Mpt.PathMap
 
@@ -37,18 +45,115 @@ theorem split_basic (sep : Byte) (t : List Byte) :
     splitOn sep t ≠ [] ∧ (sep ∉ t → splitOn sep t = [t]) :=
   ⟨splitOn_ne_nil sep t, splitOn_no_sep sep t⟩
 
-/-- the full statement of the path clause: also with an assign character, for the last element
-    (`mpt_path_last` after any number of consumed elements) and for rebuilding/undoing with
-    `mpt_path_addchar`/`valid`/`add`/`del` in separator and binary mode -/
-def path_split_statement : Prop :=
-  (∀ (sep assign : Byte) (text : List Byte), sep ≠ 0 → sep ≠ assign → (0 : Byte) ∉ text →
-      elems (pathSet sep assign text).1 (text.length + 2) = .ok (splitPath sep assign text)) ∧
-  (∀ (sep : Byte) (text : List Byte) (p : Path) (done : List (List Byte)) (e : List Byte) (rest : List (List Byte)),
-      sep ≠ 0 → (0 : Byte) ∉ text → splitOn sep text = done ++ e :: rest →
-      -- `p` = the path after `done.length` calls of pathNext
-      ∃ q, pathLast p = .ok (q, (rest.getLast?.getD e).length)) ∧
-  (∀ (bin : Bool) (sep : Byte) (es : List (List Byte)), (∀ e ∈ es, sep ∉ e ∧ e.length ≤ 255) → es.head? ≠ some [] →
-      ∃ p, elems p (es.length + 2) = .ok es ∧ p.binary = bin)
+/-- `path_split` with any assign character: the walk yields the components of the text in front of the first assign
+    character (`splitPath`) -/
+theorem path_split_assign (sep assign : Byte) (hs : sep ≠ 0) (hsa : sep ≠ assign) (text : List Byte)
+    (h0 : (0 : Byte) ∉ text) :
+    elems (pathSet sep assign text).1 (text.length + 2) = .ok (splitPath sep assign text) :=
+  elems_pathSet_assign sep assign hs hsa text h0
+
+example : elems (pathSet 46 61 [97, 46, 98, 61, 99, 46, 100]).1 9 = .ok [[97], [98]] := by
+  have := path_split_assign 46 61 (by decide) (by decide) [97, 46, 98, 61, 99, 46, 100] (by decide)
+  simpa [splitPath, splitOn] using this
+
+/-- `mpt_path_last` after `n` calls of `mpt_path_next` (fewer than there are components): the path is reduced to
+    the last component of the text and its length is returned — whatever was consumed before and however long the
+    components are (`first` only holds 8 bits) -/
+theorem path_last (sep assign : Byte) (hs : sep ≠ 0) (hsa : sep ≠ assign) (text : List Byte)
+    (h0 : (0 : Byte) ∉ text) (n : Nat) (hn : n < (splitPath sep assign text).length) :
+    ∃ p q last, (splitPath sep assign text).getLast? = some last ∧
+      nextN (pathSet sep assign text).1 n = .ok p ∧ pathLast p = .ok (q, last.length) ∧
+      elems q (last.length + 2) = .ok [last] :=
+  pathLast_after_next sep assign hs hsa text h0 n hn
+
+example : ∃ p q, nextN (pathSet 46 0 [97, 46, 98, 46, 99, 100]).1 1 = .ok p ∧ pathLast p = .ok (q, 2) ∧
+    elems q 4 = .ok [[99, 100]] := by
+  obtain ⟨p, q, last, h1, h2, h3, h4⟩ := path_last 46 0 (by decide) (by decide) [97, 46, 98, 46, 99, 100] (by decide) 1
+    (by simp [splitPath, splitOn])
+  have : last = [99, 100] := by simpa [splitPath, splitOn] using h1.symm
+  subst this
+  exact ⟨p, q, h2, h3, h4⟩
+
+/-- rebuilding in separator mode: a path built element by element (every character through `mpt_path_addchar` +
+    `mpt_path_valid`, then `mpt_path_add`; elements without separator, the first one not empty) is walked by
+    `mpt_path_next` as exactly these elements -/
+theorem path_rebuild_sep (sep assign : Byte) (e0 : List Byte) (es : List (List Byte)) (h0 : e0 ≠ [])
+    (hs : ∀ e ∈ e0 :: es, sep ∉ e) :
+    ∃ p, pushElems (emptyPath sep assign false) (e0 :: es) = .ok p ∧
+      elems p ((joinSep sep (e0 :: es)).length + 2) = .ok (e0 :: es) := by
+  obtain ⟨p, h1, _, h3⟩ := build_sep sep assign e0 es h0 hs
+  exact ⟨p, h1, h3⟩
+
+example : ∃ p, pushElems (emptyPath 47 0 false) [[97], [], [98, 99]] = .ok p ∧ elems p 7 = .ok [[97], [], [98, 99]] := by
+  simpa [joinSep] using path_rebuild_sep 47 0 [97] [[], [98, 99]] (by simp) (by simp)
+
+/-- rebuilding in binary length mode (elements of at most 255 bytes, the first one not empty) -/
+theorem path_rebuild_bin (sep assign : Byte) (e0 : List Byte) (es : List (List Byte)) (h0 : e0 ≠ [])
+    (hs : ∀ e ∈ e0 :: es, e.length ≤ 255) :
+    ∃ p, pushElems (emptyPath sep assign true) (e0 :: es) = .ok p ∧
+      elems p ((e0 :: es).length + 1) = .ok (e0 :: es) := by
+  obtain ⟨p, h1, _, h3⟩ := build_bin sep assign e0 es h0 hs
+  exact ⟨p, h1, h3⟩
+
+example : ∃ p, pushElems (emptyPath 46 0 true) [[97, 46], [98]] = .ok p ∧ elems p 3 = .ok [[97, 46], [98]] :=
+  path_rebuild_bin 46 0 [97, 46] [[98]] (by simp) (by simp)
+
+/-- undo in separator mode: `mpt_path_del` on the path built from `es ++ [e]` returns the length of `e`, and what is
+    left is walked as `es` and can be extended again (`pushElem` of a new element succeeds and gives `es ++ [e']`) -/
+theorem path_undo_sep (sep assign : Byte) (e0 : List Byte) (es : List (List Byte)) (e e' : List Byte) (h0 : e0 ≠ [])
+    (hs : ∀ x ∈ e0 :: es ++ [e], sep ∉ x) (hs' : sep ∉ e') :
+    ∃ p q r, pushElems (emptyPath sep assign false) (e0 :: es ++ [e]) = .ok p ∧ pathDel p = .ok (q, e.length) ∧
+      elems q ((joinSep sep (e0 :: es)).length + 2) = .ok (e0 :: es) ∧
+      pushElem q e' = .ok r ∧ elems r ((joinSep sep (e0 :: es ++ [e'])).length + 2) = .ok (e0 :: es ++ [e']) := by
+  obtain ⟨p, h1, h2, _⟩ := build_sep sep assign e0 (es ++ [e]) h0 (by simpa using hs)
+  obtain ⟨q, hq, hQ, _⟩ := pathDel_sep (es := e0 :: es) (e := e) (by simpa using h2) (hs e (by simp))
+  have hQ' := hQ (by simp)
+  obtain ⟨x, hS⟩ := hQ'.sp
+  have hse : ∀ x ∈ e0 :: es, sep ∉ x := fun x hx => hs x (by simp at hx ⊢; rcases hx with h | h <;> simp [h])
+  obtain ⟨r, hr, hR⟩ := pushElem_sep hQ' (by simp) e' hs'
+  obtain ⟨y, hS'⟩ := hR.sp
+  have hall : ∀ x ∈ e0 :: es ++ [e'], sep ∉ x := by
+    intro x hx
+    rw [List.mem_append] at hx
+    rcases hx with h | h
+    · exact hse x h
+    · simp at h; exact h ▸ hs'
+  refine ⟨p, q, r, h1, hq, ?_, hr, ?_⟩
+  · rw [elems_sepPath hS _ (Nat.le_refl _), splitOn_joinSep sep _ (by simp) hse]
+  · rw [elems_sepPath hS' _ (Nat.le_refl _), splitOn_joinSep sep _ (by simp) hall]
+
+example : ∃ p q r, pushElems (emptyPath 47 0 false) [[97], [98], [99]] = .ok p ∧ pathDel p = .ok (q, 1) ∧
+    elems q 5 = .ok [[97], [98]] ∧ pushElem q [100, 101] = .ok r ∧ elems r 8 = .ok [[97], [98], [100, 101]] := by
+  simpa [joinSep] using path_undo_sep 47 0 [97] [[98]] [99] [100, 101] (by simp) (by simp) (by simp)
+
+/-- undo in binary length mode -/
+theorem path_undo_bin (sep assign : Byte) (e0 : List Byte) (es : List (List Byte)) (e e' : List Byte) (h0 : e0 ≠ [])
+    (hs : ∀ x ∈ e0 :: es ++ [e], x.length ≤ 255) (hs' : e'.length ≤ 255) :
+    ∃ p q r, pushElems (emptyPath sep assign true) (e0 :: es ++ [e]) = .ok p ∧ pathDel p = .ok (q, e.length) ∧
+      elems q ((e0 :: es).length + 1) = .ok (e0 :: es) ∧
+      pushElem q e' = .ok r ∧ elems r ((e0 :: es ++ [e']).length + 1) = .ok (e0 :: es ++ [e']) := by
+  obtain ⟨p, h1, h2, _⟩ := build_bin sep assign e0 (es ++ [e]) h0 (by simpa using hs)
+  obtain ⟨q, hq, hQ, _⟩ := pathDel_bin (es := e0 :: es) (e := e) (by simpa using h2)
+  have hQ' := hQ (by simp)
+  obtain ⟨r, hr, hR⟩ := pushElem_bin hQ' (by simp) e' hs'
+  exact ⟨p, q, r, h1, hq, elems_arrB hQ', hr, by simpa using elems_arrB hR⟩
+
+example : ∃ p q r, pushElems (emptyPath 47 0 true) [[97], [47]] = .ok p ∧ pathDel p = .ok (q, 1) ∧
+    elems q 2 = .ok [[97]] ∧ pushElem q [] = .ok r ∧ elems r 3 = .ok [[97], []] := by
+  simpa using path_undo_bin 47 0 [97] [] [47] [] (by simp) (by simp) (by simp)
+
+/-- `mpt_path_last` on a binary-mode path built from `es ++ [e]`: the path is reduced to `e` -/
+theorem path_last_bin (sep assign : Byte) (e0 : List Byte) (es : List (List Byte)) (e : List Byte) (h0 : e0 ≠ [])
+    (hs : ∀ x ∈ e0 :: es ++ [e], x.length ≤ 255) :
+    ∃ p q, pushElems (emptyPath sep assign true) (e0 :: es ++ [e]) = .ok p ∧ pathLast p = .ok (q, e.length) ∧
+      elems q 2 = .ok [e] := by
+  obtain ⟨p, h1, h2, _⟩ := build_bin sep assign e0 (es ++ [e]) h0 (by simpa using hs)
+  obtain ⟨q, hq, hq'⟩ := pathLast_bin (es := e0 :: es) (e := e) (by simpa using h2)
+  exact ⟨p, q, h1, hq, hq'⟩
+
+example : ∃ p q, pushElems (emptyPath 47 0 true) [[97], [98, 47]] = .ok p ∧ pathLast p = .ok (q, 2) ∧
+    elems q 2 = .ok [[98, 47]] := by
+  simpa using path_last_bin 47 0 [97] [] [98, 47] (by simp) (by simp)
 
 /-! ### map_refinement -/
 
@@ -133,11 +238,40 @@ theorem root_query_value (l : List Item) (k : Key) (x : Value) :
   | none => simp
   | some c => cases hv : c.value <;> simp [hv]
 
-/-- the full statement of the map clause incl. sub-tree views: a view with base path `b` acts on the map at `b ++ k` -/
-def map_refinement_statement : Prop :=
-  ∀ (l : List CNode) (m : PMap) (b k : Key) (v : Value), Uniq l → Agree l m → b ++ k ≠ [] →
+/-- Sub-tree views (`mpt_config_global(&path)`): on any tree that agrees with a map, assign / query / remove through a
+    view with base path `b` act on the map at `b ++ k` and keep the agreement — in particular `make_global` (which
+    creates the missing part of the base) never changes what any path reads, whether the base exists completely
+    (with or without children), partially or not at all. -/
+theorem map_refinement_view (l : List CNode) (m : PMap) (b k : Key) (v : Value) (hu : Uniq l) (ha : Agree l m)
+    (hne : b ++ k ≠ []) :
     (∀ l', configAssign l b k v = .ok l' → Uniq l' ∧ Agree l' (PathMap.set m (b ++ k) v)) ∧
     (∀ x, configQuery l b k = .ok x ↔ PathMap.get m (b ++ k) = some x) ∧
-    (∀ l' r, k ≠ [] → configRemove l b k = .ok (l', r) → Uniq l' ∧ Agree l' (removePrefix m (b ++ k)))
+    (∀ l' r, k ≠ [] → configRemove l b k = .ok (l', r) → Uniq l' ∧ Agree l' (removePrefix m (b ++ k))) :=
+  view_refinement l m b k v hu ha hne
+
+/-- a view on a base that does not exist yet: the assignment creates `a.b` and nothing else is readable -/
+example : ∀ l', configAssign [] [[97]] [[98]] [1] = .ok l' →
+    (∀ k, k ≠ [] → valueAt l' k = PathMap.get [([[97], [98]], [1])] k) := by
+  intro l' h
+  have := (map_refinement_view [] [] [[97]] [[98]] [1] (by simp [Uniq])
+    (by intro k _; cases k <;> simp [valueAt, findExact, locate, PathMap.get]) (by simp)).1 l' h
+  simpa [PathMap.set, Agree] using this.2
+
+/-- `make_global(base)` alone: every path reads what it read before -/
+theorem make_global_keeps_values (b : Key) (l : List CNode) (k : Key) : valueAt (ensure l b) k = valueAt l k :=
+  valueAt_ensure b l k
+
+/-- the situation of seeded change C10-2: the base `srv.opt` (here `s.o`) is a valued leaf; assigning `l` through the
+    view keeps the value of the base -/
+example : ∀ l', configAssign [.mk [115] none [.mk [111] (some [102]) []]] [[115], [111]] [[108]] [57] = .ok l' →
+    valueAt l' [[115], [111]] = some [102] := by
+  intro l' h
+  have hk : nodeAssign (ensure [.mk [115] none [.mk [111] (some [102]) []]] [[115], [111]]) [[115], [111], [108]] [57] = some l' := by
+    simp only [configAssign] at h
+    cases hn : nodeAssign (ensure [.mk [115] none [.mk [111] (some [102]) []]] [[115], [111]]) [[115], [111], [108]] [57] with
+    | none => simp [hn] at h
+    | some l2 => simp [hn] at h; simp [h]
+  rw [(get_after_set _ _ _ _ hk).2 [[115], [111]] (by decide), make_global_keeps_values]
+  simp [valueAt, findExact, locate, CNode.name, CNode.kids, CNode.value]
 
 end Mpt.C10
